@@ -36,7 +36,7 @@ ASSUMPTIONS = [
 SHARDS = {"quick": 16, "thorough": 16}
 TIMEOUT = {"quick": 900, "thorough": 7200}
 MIN_CASES = {"quick": 1500, "thorough": 30000}
-REQUIRED_COUNTERS = ["quiescent_checks", "failed_setups_closed", "closes_returned_normally", "close_sweep_points", "peer_close_probes", "auth_failure_then_close", "late_loss_probes", "reuse_after_close_histories", "announcements_after_shutdown", "announcements_during_shutdown"]
+REQUIRED_COUNTERS = ["quiescent_checks", "failed_setups_closed", "closes_returned_normally", "close_sweep_points", "peer_close_probes", "auth_failure_then_close", "late_loss_probes", "reuse_after_close_histories", "announcements_after_shutdown", "announcements_during_shutdown", "own_pairing_removed_and_closed"]
 
 FAILS = [
     "refuse", "blackhole", "bad_sig", "bad_tag", "wrong_id", "missing_field", "wrong_state", "bad_key_len",
@@ -502,6 +502,41 @@ async def run_late_loss(ctx, variant: int) -> None:
         await w.close()
 
 
+async def run_remove_own_pairing(ctx, variant: int) -> None:
+    """One more way a pairing is "explicitly closed": the controller removes ITS OWN pairing from the accessory. The pairing is
+    then shut down like after shutdown(): no connection stays open and none is opened again - however the controller's id
+    happens to be spelt (ids are UUIDs; iOS writes them in upper case)."""
+    from vf import simnet, vloop
+
+    own = ["decc6fa3-de3e-41c9-adba-ef7409821bfc", "DECC6FA3-DE3E-41C9-ADBA-EF7409821BFC", "Decc6fa3-DE3E-41c9-adba-EF7409821BFC", "controller-1"][variant % 4]
+    drop = variant % 8 >= 4  # the accessory hangs up once the pairing is gone
+    rng = ctx.grng("C11.remove-own", variant)
+    w = simnet.World(rng, ios_pairing_id=own)
+    replay = {"remove_own": variant}
+    ctx.case("remove-own", variant, sample={"history": "connect, remove own pairing", "controller_id": own, "accessory_hangs_up": drop}, kind="remove-own")
+    try:
+        await asyncio.wait_for(w.connection.ensure_connection(), 30)
+        await vloop.settle()
+        try:
+            await asyncio.wait_for(w.pairing.remove_pairing(own), 60)
+        except Exception as ex:  # noqa: BLE001
+            ctx.violation(f"remove-own-pairing-raises-{type(ex).__name__}", f"controller id {own!r}: {ex!r}", replay)
+            return
+        await vloop.settle()
+        if drop:
+            for c in list(w.accessory.open_conns):
+                c.close()
+        await asyncio.sleep(90)
+        await vloop.settle()
+        opened = len(w.accessory.conns)
+        if w.accessory.open_conns or opened > 1:
+            ctx.violation("connection-open-after-close", f"the controller removed its own pairing (id {own!r}): {len(w.accessory.open_conns)} connection(s) open, {opened - 1} opened afterwards", replay)
+            return
+        ctx.count("own_pairing_removed_and_closed")
+    finally:
+        await w.close()
+
+
 def history_plan(ctx):
     plans = []
     maxlen = ctx.pick(2, 3)
@@ -563,6 +598,9 @@ def run(ctx) -> None:
         for v in range(ctx.pick(24, 120)):
             if ctx.mine(v):
                 await run_late_loss(ctx, v)
+        for v in range(8):
+            if ctx.mine(v):
+                await run_remove_own_pairing(ctx, v)
         # close sweep
         idx = 0
         stride = ctx.pick(2, 1)
@@ -602,6 +640,9 @@ def replay(ctx, d) -> None:
     async def main():
         if d.get("late_loss") is not None:
             await run_late_loss(ctx, d["late_loss"])
+            return
+        if d.get("remove_own") is not None:
+            await run_remove_own_pairing(ctx, d["remove_own"])
             return
         if d.get("sweep_at") is not None:
             await run_sweep(ctx, d["sweep_base"], d["sweep_at"], poke=bool(d.get("poke")))
